@@ -16,6 +16,7 @@ struct dyn { uint8 n; uint16 d[n]; };
 enum E8 : uint8 { A8 = 1, B8 = 2 };
 enum E16s : int16 { A16 = -1, B16 = 5 };
 flag F32 : uint32 { X = 1, Y = 2, Z = 0x80000000 };
+enum E24 : int24 { A24 = 1, B24 = -2 };
 """
 
 # name -> field text with {n} = unique prefix; '|' separates nothing, text may hold several fields
@@ -44,6 +45,7 @@ KINDS = {
     "e8": "E8 {n};",
     "e16s": "E16s {n};",
     "fl32": "F32 {n};",
+    "e24": "E24 {n};",
     "ptr": "uint8 *{n};",
     "ptrs": "inner *{n};",
     "void": "void {n};",
@@ -53,6 +55,7 @@ KINDS = {
     "a_char_4": "char {n}[4];",
     "a_wchar_2": "wchar {n}[2];",
     "a_e8_2": "E8 {n}[2];",
+    "a_e24_2": "E24 {n}[2];",
     "a_ptr_2": "uint8 *{n}[2];",
     "a_f32_2": "float {n}[2];",
     "a2d": "uint8 {n}[2][3];",
